@@ -145,18 +145,19 @@ XalanDOMString::resize(
 
     if (theCount != theOldSize)
     {
-        if (theOldSize == 0)
+        // If there is a terminating byte, it will end up
+        // inside the string when the string grows...
+        const bool  fReplaceTerminator =
+            theCount > theOldSize && m_data.empty() == false;
+
+        // Resize, but add an extra byte for the terminating byte.
+        m_data.resize(theCount + 1, theChar);
+
+        if (fReplaceTerminator == true)
         {
-            // If the string is of 0 length, resize but add an
-            // extra byte for the terminating byte.
-            m_data.resize(theCount + 1, theChar);
-        }
-        else
-        {
-            // If the string is not of 0 length, resize but
-            // put a copy of theChar where the terminating
+            // Put a copy of theChar where the terminating
             // byte used to be.
-            m_data.resize(theCount + 1, theChar);
+            m_data[theOldSize] = theChar;
         }
 
         m_size = theCount;
